@@ -23,7 +23,7 @@ for i in 1 2 3; do (cd "$without/$sub" && go test -count=1 -timeout 120s -run "^
 echo "demo ($tests in $sub): fails with change $fails/3, passes without $passes/3"
 if [ $fails -lt 3 ] || [ $passes -lt 3 ]; then echo "SEEDED-INVALID: demonstration does not discriminate"; tail -5 "$with/.demo.log"; tail -5 "$without/.demo.log"; exit 3; fi
 rm -f "$with/$sub/zz_seeded_demo_test.go"
-cd /verif && VERIF_REPO="$with" ./check "$prop" --no-evidence "$@"
+cd /verif && VERIF_REPLAY_DIR="$with/.replays" VERIF_REPO="$with" ./check "$prop" --no-evidence "$@"
 rc=$?
 echo "seeded $(basename $(dirname $dir))/$(basename $dir) on $prop: exit $rc"
 exit $rc
